@@ -75,7 +75,7 @@ def simple_objs(content=b'BT /F1 12 Tf 72 712 Td (Hello) Tj ET', length_ref=Fals
     return objs
 
 
-def pdf_xref_stream(compress=True, w=(1, 2, 1), index=None, predictor=False):
+def pdf_xref_stream(compress=True, w=(1, 2, 1), index=None, predictor=False, xdata_override=None):
     """objects 1..3 in an object stream (5), xref stream (6)"""
     header = b'%PDF-1.5\n'
     members = [(1, b'<</Type/Catalog/Pages 2 0 R>>'), (2, b'<</Type/Pages/Kids[3 0 R]/Count 1>>'),
@@ -94,10 +94,14 @@ def pdf_xref_stream(compress=True, w=(1, 2, 1), index=None, predictor=False):
     o6 = len(out)
     rows = [(0, 0, 255), (2, 5, 0), (2, 5, 1), (2, 5, 2), (0, 0, 0), (1, o5, 0), (1, o6, 0)]
     raw = b''
+    wfull = tuple(w)
+    w = [x if 0 < x <= 8 else 0 for x in (list(w) + [0, 0, 0])[:3]]     # the widths the rows are written with
     for t, a, g in rows:
         raw += t.to_bytes(w[0], 'big') if w[0] else b''
         raw += (a % (256 ** w[1])).to_bytes(w[1], 'big') if w[1] else b''
         raw += (g % (256 ** w[2])).to_bytes(w[2], 'big') if w[2] else b''
+    if xdata_override is not None:
+        raw = xdata_override
     parms = b''
     if predictor:
         width = sum(w)
@@ -107,8 +111,8 @@ def pdf_xref_stream(compress=True, w=(1, 2, 1), index=None, predictor=False):
         raw = pr
         parms = b'/DecodeParms<</Predictor 12/Columns %d>>' % width
     xdata = zlib.compress(raw) if compress else raw
-    out += b'6 0 obj\n<</Type/XRef/Size 7/Root 1 0 R/W[%d %d %d]%s%s%s/Length %d>>stream\n' % (
-        w[0], w[1], w[2], (b'/Index[%s]' % b' '.join(b'%d' % i for i in index)) if index else b'',
+    out += b'6 0 obj\n<</Type/XRef/Size 7/Root 1 0 R/W[%s]%s%s%s/Length %d>>stream\n' % (
+        b' '.join(b'%d' % x for x in wfull), (b'/Index[%s]' % b' '.join(b'%d' % i for i in index)) if index else b'',
         b'/Filter/FlateDecode' if compress else b'', parms, len(xdata)) + xdata + b'\nendstream\nendobj\n'
     out += b'startxref\n%d\n%%%%EOF\n' % o6
     return bytes(out)
@@ -426,6 +430,112 @@ def gen_stream(rng):
     return case('stream', ST(ents, content))
 
 
+# ------------------------------------------------------------------------------------------
+# directed families (every run): which numbers of /W the decoder reads; bfrange target arrays against their range
+# ------------------------------------------------------------------------------------------
+def many_pairs(n, count=1000000):
+    """`0 count` n times: the same object numbers again and again (a decoder that does not stop at least does not eat memory)"""
+    return [0, count] * n
+
+
+def w_family(q):
+    """W arrays of length 2..5 over {0, 1, negative} in every position (only the first three numbers are field widths; the
+    rest is never read), each with a huge Index count and with many Index pairs; yields (W, Index, content)"""
+    import itertools
+    content = bytes([1, 0, 7, 0, 2, 1, 9, 0, 0, 3, 3, 3]) * 2
+    huge = [[0, I64MAX], [0, 4000000000], [5, 2**62]]
+    pairs = many_pairs(2000 if q else 20000)
+    k = 0
+    for n in (2, 3, 4, 5):
+        for ws in itertools.product((0, 1, -1), repeat=n):
+            ws = list(ws)
+            zero3 = n >= 3 and ws[:3] == [0, 0, 0]
+            if n == 5 and not zero3 and q and (k % 3):
+                k += 1
+                continue                        # quick tier: a third of the 243 five-element arrays (all of them when zero3)
+            k += 1
+            if zero3:
+                for ix in huge + [pairs]:       # the dangerous class: every Index shape
+                    yield ws, ix, content
+            else:
+                yield ws, huge[k % 3], content
+                width = sum(ws[:3])
+                if n >= 3 and min(ws[:3]) >= 0:
+                    yield ws, [3, len(content) // width], content      # the rows fit: every entry is read
+                    yield ws, [0, 2, 7, len(content) // width - 2, 9, 0], content
+                if k % 4 == 0:
+                    yield ws, pairs, content
+    for ws in ([0, 0, 0, I64MAX], [0, 0, 0, -I64MAX - 1], [0, 0, 0, 0, 5], [0, 0, 0, 0, 0], [0, 0, 0, 0, 0, 0, 0, 1], [1, 1, 1, -I64MAX - 1],
+               [2, 0, 0, -1, -1], [0, 0, I64MAX, 0], [-I64MAX - 1, 0, 0, 1], [0, 0], [0], [], [0, 0, 0, 1] * 50):
+        yield ws, [0, I64MAX], content
+        yield ws, pairs, content
+
+
+def w_family_files(q):
+    """the same through a whole file: the cross-reference section is a stream with such a /W (uncompressed, so that the row
+    data is what is written here)"""
+    pairs = many_pairs(2000 if q else 20000)
+    for ws in ([0, 0, 0, 1], [0, 0, 0, 0, 5], [0, 0, 0], [0, 0, 0, 0], [0, 0, 0, -1], [1, 2, 1, 0], [1, 2, 1, 7], [1, 2, 1, -1], [1, 2, 1, 0, 0],
+               [-1, 2, 1], [1, -1, 1, 0], [1, 2, -1, 5], [0, 2, 1, 0], [1, 2, 0, 0], [1, 2], [0, 0, 1, 0], [0, 1, 0, 0, -1]):
+        for ix in ([0, 7], [0, I64MAX], pairs):
+            yield ws, ix, pdf_xref_stream(compress=False, w=ws, index=ix)
+
+
+CMAP_HEAD2 = (b'/CIDInit /ProcSet findresource begin 12 dict begin begincmap /CMapType 2 def '
+              b'1 begincodespacerange <0000> <ffff> endcodespacerange ')
+CMAP_HEAD1 = (b'/CIDInit /ProcSet findresource begin 12 dict begin begincmap /CMapType 2 def '
+              b'1 begincodespacerange <00> <ff> endcodespacerange ')
+CMAP_TAIL = b' endcmap CMapName currentdict /CMap defineresource pop end end'
+
+
+def bfrange_array_family():
+    """a bfrange whose target is an ARRAY of strings: the array exactly as long as the range, one short, two short, one
+    long, empty, a single string, also after a later overlapping definition has split the range; with a text that uses
+    every code of the range and its neighbours (first and LAST code in particular); yields (cmap stream, text, code length)"""
+    def arr(k, base=0x41):
+        return b'[' + b' '.join(b'<%04x>' % (base + i) for i in range(k)) + b']'
+    for clen, head in ((2, CMAP_HEAD2), (1, CMAP_HEAD1)):
+        h = lambda c: (b'<%04x>' if clen == 2 else b'<%02x>') % c
+        code = lambda c: c.to_bytes(clen, 'big')
+        for lo, hi in ((0, 2), (0x10, 0x14), (0, 1), (5, 5), (0xfd, 0xff), (0, 0xff)) + (((0xfffe, 0xffff), (0x0100, 0x0103)) if clen == 2 else ()):
+            size = hi - lo + 1
+            codes = sorted({c for c in (lo - 1, lo, lo + 1, hi - 1, hi, hi + 1, lo + size // 2) if 0 <= c < 256 ** clen})
+            text = b''.join(code(c) for c in codes) + code(hi) + code(lo)
+            for k in sorted({size, size - 1, size - 2, size + 1, 0, 1, 2, size // 2}):
+                if k < 0 or k > 300:
+                    continue
+                body = b'1 beginbfrange ' + h(lo) + b' ' + h(hi) + b' ' + arr(k) + b' endbfrange'
+                yield head + body + CMAP_TAIL, text, clen
+            if size >= 3:
+                # a later definition overlaps: the middle / the first / the last code; the remaining pieces keep the array
+                for k in (size, size - 1, size + 1):
+                    for cut in (lo + 1, lo, hi):
+                        body = (b'2 beginbfrange ' + h(lo) + b' ' + h(hi) + b' ' + arr(k) + b' ' + h(cut) + b' ' + h(cut) + b' <0061> endbfrange')
+                        yield head + body + CMAP_TAIL, text, clen
+                    body = (b'1 beginbfrange ' + h(lo) + b' ' + h(hi) + b' ' + arr(k) + b' endbfrange 1 beginbfchar ' + h(hi - 1) + b' <00620063> endbfchar')
+                    yield head + body + CMAP_TAIL, text, clen
+                    # the array definition comes LAST and overlaps an earlier, longer range
+                    body = (b'2 beginbfrange ' + h(max(0, lo - 1)) + b' ' + h(min(256 ** clen - 1, hi + 1)) + b' <0030> ' + h(lo) + b' ' + h(hi) + b' ' + arr(k) + b' endbfrange')
+                    yield head + body + CMAP_TAIL, text, clen
+
+
+def pdf_with_tounicode(cmap, text, clen):
+    """one page whose font has the given ToUnicode CMap (Identity-H for two-byte codes) and whose content shows [text]"""
+    hexs = b'<' + text.hex().encode() + b'>'
+    content = b'BT /F1 12 Tf ' + hexs + b' Tj [' + hexs + b' -20 ' + hexs + b'] TJ ET'
+    font = (b'<</Type/Font/Subtype/Type0/BaseFont/X/Encoding/Identity-H/ToUnicode 6 0 R>>' if clen == 2 else
+            b'<</Type/Font/Subtype/Type1/BaseFont/X/ToUnicode 6 0 R>>')
+    objs = [
+        (1, b'<</Type/Catalog/Pages 2 0 R>>'),
+        (2, b'<</Type/Pages/Kids[3 0 R]/Count 1>>'),
+        (3, b'<</Type/Page/Parent 2 0 R/MediaBox[0 0 99 99]/Contents 4 0 R/Resources<</Font<</F1 5 0 R>>>>>>'),
+        (4, stream_obj(b'', content)),
+        (5, font),
+        (6, stream_obj(b'', cmap)),
+    ]
+    return pdf_classic(objs)
+
+
 def gen_cases(rng, tier):
     q = tier == 'quick'
     cases = []
@@ -502,6 +612,16 @@ def gen_cases(rng, tier):
               b'[' * 100 + b']' * 100 + b' TJ', b'[' * 101 + b']' * 101 + b' TJ', b'[' * 2000 + b']' * 2000 + b' TJ', b'<</A' * 3000,
               b'(' * 101 + b')' * 101 + b' Tj', b'(' * 5000]:
         add(case('content', XB(b)), 'content-directed')
+    for ws, ix, content in w_family(q):
+        add(case('xrefstm', D([('Size', I(3)), ('W', A([I(w) for w in ws])), ('Index', A([I(i) for i in ix]))]), XB(content)), 'xrefstm-wfamily')
+    for ws, ix, f in w_family_files(q):
+        add(case('load', XB(f)), 'load-wfamily')
+        if len(ix) == 2:
+            add(case('incload', XB(f)), 'incload-wfamily')
+    for i, (cm, text, clen) in enumerate(bfrange_array_family()):
+        add(case('cmap', XB(cm), XB(text)), 'cmap-arrayfamily')
+        if not q or i % 3 == 0 or b'<0000> <0002> [<0041> <0042>]' in cm:
+            add(case('loadtext', XB(pdf_with_tounicode(cm, text, clen))), 'loadtext-arrayfamily')
     # adversarial whole files
     n = 3000 if q else 20000
     chain = [(i, b'<</Length %d 0 R>>stream\nx\nendstream' % (i + 1)) for i in range(1, n + 1)] + [(n + 1, b'1')]
